@@ -31,13 +31,15 @@ def run(args):
                 if not (check or diff) and fstates != "rewritten-formatted,unchanged,rewritten-formatted,unchanged,rewritten-formatted":
                     failures.append({"request": req, "real": real, "why": "fmt must rewrite exactly the unformatted files"})
                 continue
-            kind, check, diff = p[2], p[3] == "true", p[4] == "true"
+            kind, check, diff = p[2].split(":")[0], p[3] == "true", p[4] == "true"
             if (check or diff) and "unchanged" not in real:
                 failures.append({"request": req, "real": real, "why": "--check/--diff modified the file"})
             if kind == "formatted" and real != "exit0 unchanged":
                 failures.append({"request": req, "real": real, "why": "an already formatted file must pass and stay untouched"})
             if kind == "unformatted" and not check and not diff and real != "exit0 rewritten-formatted":
                 failures.append({"request": req, "real": real, "why": "fmt must rewrite the file with the formatted text"})
+            if kind == "unformatted" and check and real != "exit1 unchanged":
+                failures.append({"request": req, "real": real, "why": "--check must report a file that fmt would rewrite"})
         hist = {}
         n_ok = 0
         for req, real in files:
